@@ -525,6 +525,19 @@ def run(prog: Program, res: Result) -> None:  # noqa: PLR0912, PLR0915
                     res.fail("C15.R2d", file=ext.file, line=a.lineno, qualname=ext.qualname, construct=f"{ext.qualname}: {a.value.value} reported for a context argument that is not a string literal", message=f"{ext.qualname} falls back to `{a.value.value}` when the context argument is present but not a string literal (a variable); the render then asks the catalog for {'pgettext' if a.value.value == 'gettext' else 'npgettext'} with the variable's value: a lookup whose family and context extraction does not report", what=what)
                 else:
                     res.ok("C15.R2d", site, what, "guarded by absence only")
+    # the plural operand likewise: bound once from the filter's arguments, never given a value the template did not write
+    for c, sel, ext, is_tag in pairs:
+        plural_names = {t.id for a in ast.walk(sel.node) if isinstance(a, ast.Assign) for t in a.targets if isinstance(t, ast.Name) and "plural" in t.id} | {p_ for p_ in sel.params() if "plural" in p_}
+        for p_ in sorted(plural_names):
+            binds = [a for a in ast.walk(sel.node) if isinstance(a, ast.Assign) and any(isinstance(t, ast.Name) and t.id == p_ for t in a.targets)]
+            extra = binds[1:] if p_ not in sel.params() else binds
+            extra = [a for a in extra if not (isinstance(a.value, ast.Call) and (dotted(a.value.func) or "").split(".")[-1] in ("to_liquid_string", "str", "escape", "Markup"))]
+            n_b += 1
+            if extra:
+                a = extra[0]
+                res.fail("C15.R2b", file=sel.file, line=a.lineno, qualname=sel.qualname, construct=f"{sel.qualname}: the plural operand `{p_}` is given a value the template did not write", message=f"{sel.qualname} rebinds `{p_}` (`{norm(a, 60)}`) before it selects the gettext family: the extractor reports the singular family (gettext / pgettext) when no plural is written, while the render now asks the catalog for ngettext / npgettext with that stand-in plural", what=f"{sel.qualname}: the plural operand reaches the family selection as written")
+            else:
+                res.ok("C15.R2b", f"{sel.file}:{sel.node.lineno} {sel.qualname}", f"{sel.qualname}: the plural operand reaches the family selection as written", f"`{p_}` bound once")
     # the operand the family is selected on is the one the template wrote: no rebinding of the context parameter in a run-time selector
     for c, sel, ext, is_tag in pairs:
         ctx_params = [p_ for p_ in sel.params() if "context" in p_ and p_ not in ("context",) and "count" not in p_]
